@@ -223,22 +223,33 @@ def carried_messages(molecule):
 
 
 class Capture:
-    """wraps the writer call, the missing-link query and the logger of gen_params (no hooks inside the repository)"""
+    """wraps the writer call, the end of link application and the logger of gen_params (no hooks inside the repository).
+    "Mapping and link application passed" is observed where gen_params asks for the missing links (gen_itp.find_missing_edges, the
+    name the module uses now); when gen_params gets at its missing links some other way the return of ApplyLinks.run_molecule
+    stands for it, and the writer call in any case.  The requested residue graph is the meta molecule's at that moment (taken from
+    the missing-link query, else from the meta molecule ApplyLinks returned, else - last resort - the residue graph of the
+    molecule handed to the writer).  A wrapper whose target is not there is simply not installed."""
 
     def __init__(self):
         import vermouth.gmx.itp as vitp
         import polyply.src.gen_itp as gi
         self.vitp, self.gi = vitp, gi
-        self.orig_write, self.orig_missing, self.orig_logger = vitp.write_molecule_itp, gi.find_missing_edges, gi.LOGGER
+        self.orig_write, self.orig_logger = vitp.write_molecule_itp, getattr(gi, "LOGGER", None)
+        self.orig_missing = getattr(gi, "find_missing_edges", None)
+        self.links_cls = getattr(gi, "ApplyLinks", None)
+        self.orig_run = self.links_cls.__dict__.get("run_molecule") if isinstance(self.links_cls, type) else None
         self.built = None
         self.msgs = None
         self.req = None
+        self.meta = None
+        self.molecule = None
         self.warnings = []
         self.stage = "start"
         cap = self
 
         def write_molecule_itp(molecule, outfile, *a, **k):
             cap.stage = "writer called"
+            cap.molecule = molecule
             try:
                 cap.built = project_molecule(molecule, k.get("moltype", a[1] if len(a) > 1 else None))
             except Exception as exc:   # the projection must never mask the code under test
@@ -253,9 +264,36 @@ class Capture:
             cap.stage = "links applied"
             cap.req = project_resgraph(meta)
             return iter(res)
+
+        def run_molecule(proc, meta, *a, **k):
+            res = cap.orig_run(proc, meta, *a, **k)
+            cap.meta = res if res is not None else meta
+            if cap.orig_missing is None and cap.stage == "start":
+                cap.stage = "links applied"
+            return res
         vitp.write_molecule_itp = write_molecule_itp
-        gi.find_missing_edges = find_missing_edges
-        gi.LOGGER = _LoggerProxy(self.orig_logger, self.warnings)
+        if self.orig_missing is not None:
+            gi.find_missing_edges = find_missing_edges
+        if self.orig_run is not None:
+            self.links_cls.run_molecule = run_molecule
+        if self.orig_logger is not None:
+            gi.LOGGER = _LoggerProxy(self.orig_logger, self.warnings)
+
+    def requested(self):
+        """the requested residue graph (see the class comment for where it is taken from)"""
+        if self.req is None and self.meta is not None:
+            try:
+                self.req = project_resgraph(self.meta)
+            except Exception:
+                pass
+        if self.req is None and self.molecule is not None:
+            try:
+                from vermouth.graph_utils import make_residue_graph
+                rg = make_residue_graph(self.molecule, attrs=("resid", "resname"))
+                self.req = project_resgraph(rg)
+            except Exception:
+                pass
+        return self.req
 
     def missing(self):
         """residue pairs named by the missing-link warnings"""
@@ -267,7 +305,13 @@ class Capture:
         return res
 
     def close(self):
-        self.vitp.write_molecule_itp, self.gi.find_missing_edges, self.gi.LOGGER = self.orig_write, self.orig_missing, self.orig_logger
+        self.vitp.write_molecule_itp = self.orig_write
+        if self.orig_missing is not None:
+            self.gi.find_missing_edges = self.orig_missing
+        if self.orig_run is not None:
+            self.links_cls.run_molecule = self.orig_run
+        if self.orig_logger is not None:
+            self.gi.LOGGER = self.orig_logger
 
 
 def run_command(argv, cwd, keep_existing=False, live_log=False):
@@ -326,7 +370,7 @@ def run_command(argv, cwd, keep_existing=False, live_log=False):
     rec["built"] = cap.built
     rec["msgs"] = cap.msgs or {lv: 0 for lv in LEVELS}
     rec["seen"], rec["logged"] = log.before, log.logged
-    rec["req"] = cap.req
+    rec["req"] = cap.requested() if cap.stage != "start" else None
     rec["missing"] = cap.missing() if cap.stage != "start" else None
     rec["written"] = out.exists()
     if rec["written"] and before is not None:
@@ -516,6 +560,77 @@ def render_case(mol, variant=0, msg=None):
          "edges": [{"source": ordinal[e[0]], "target": ordinal[e[1]]} for e in mol["redges"]]}
     g["links"] = g["edges"]
     return "\n".join(out), json.dumps(g)
+
+
+def render_chain(mol):
+    """abstract CHAIN molecule -> (.ff text, residue-graph JSON without tags): a force field a `-seq` request can use.  Residues are
+    numbered 1..n and joined in a row; same name => same block (atoms and the interactions inside the residue); every bond /
+    constraint between consecutive residues is made by a link that selects its atoms by atom name and residue name only."""
+    atoms = mol["atoms"]
+    rnode = {n["id"]: n["name"] for n in mol["rnodes"]}
+    n = len(rnode)
+    if sorted(rnode) != list(range(1, n + 1)) or sorted(sorted(e) for e in mol["redges"]) != [[r, r + 1] for r in range(1, n)]:
+        raise ValueError("not a chain of residues 1..n")
+    by_res = {rid: [i for i, a in enumerate(atoms, 1) if a["resid"] == rid] for rid in rnode}
+    local = {i: (a["resid"], by_res[a["resid"]].index(i) + 1) for i, a in enumerate(atoms, 1)}
+
+    def guard_meta(x):
+        m = {}
+        if x["gk"] != "none":
+            m[x["gk"]] = x["gtag"]
+        if x.get("comment"):
+            m["comment"] = x["comment"]
+        return (" " + json.dumps(m)) if m else ""
+    intra = {rid: [] for rid in rnode}
+    links = []
+    for x in mol["inter"]:
+        rs = sorted({local[i][0] for i in x["atoms"]})
+        if len(rs) == 1:
+            intra[rs[0]].append((x["sec"], tuple(local[i][1] for i in x["atoms"]), tuple(x["par"]), guard_meta(x)))
+        elif len(rs) == 2 and rs[1] == rs[0] + 1 and x["sec"] in ("bonds", "constraints") and len(x["atoms"]) == 2:
+            ref = [("" if local[i][0] == rs[0] else "+") + atoms[i - 1]["name"] for i in x["atoms"]]
+            key = (rnode[rs[0]], rnode[rs[1]], x["sec"], tuple(ref), tuple(x["par"]), guard_meta(x))
+            if key not in links:
+                links.append(key)
+        else:
+            raise ValueError("interaction %s cannot be made by a block or a link of consecutive residues" % (x,))
+    out, seen = [], {}
+    for rid in sorted(rnode):
+        rn = rnode[rid]
+        body = (tuple((atoms[i - 1]["name"], atoms[i - 1]["type"], atoms[i - 1]["charge"], atoms[i - 1]["mass"]) for i in by_res[rid]), tuple(sorted(intra[rid])))
+        if rn in seen:
+            if seen[rn] != body:
+                raise ValueError("residues named %s differ" % rn)
+            continue
+        seen[rn] = body
+        out.append("[ moleculetype ]\n%s %d\n[ atoms ]" % (rn, mol["nrexcl"]))
+        for k, i in enumerate(by_res[rid], 1):
+            a = atoms[i - 1]
+            cols = "%d %s 1 %s %s 1" % (k, a["type"], rn, a["name"])
+            if a["charge"] != "":
+                cols += " " + a["charge"] + ((" " + a["mass"]) if a["mass"] != "" else "")
+            elif a["mass"] != "":
+                cols += ' {"mass": %s}' % a["mass"]
+            out.append(cols)
+        for sec in sorted({t[0] for t in intra[rid]}):
+            out.append("[ %s ]" % sec)
+            for t in intra[rid]:
+                if t[0] == sec:
+                    sep = " -- " if sec in ("virtual_sitesn", "exclusions") else " "
+                    out.append(" ".join(str(j) for j in t[1]) + sep + " ".join(t[2]) + t[3])
+        out.append("")
+    for ra, rb, sec, ref, par, meta in links:
+        out.append("[ link ]\n[ atoms ]")
+        for r in ref:
+            out.append('%s {"resname": "%s"}' % (r, rb if r.startswith("+") else ra))
+        out.append("[ %s ]" % sec)
+        out.append(" ".join(ref) + " " + " ".join(par) + meta)
+        out.append("")
+    g = {"directed": False, "multigraph": False, "graph": {},
+         "nodes": [{"id": rid - 1, "resid": rid, "resname": rnode[rid]} for rid in sorted(rnode)],
+         "edges": [{"source": r - 1, "target": r} for r in range(1, n)]}
+    g["links"] = g["edges"]
+    return "\n".join(out) + "\n", json.dumps(g)
 
 
 # --------------------------------------------------------------------------- seeded random polymers (I->S)
